@@ -123,10 +123,24 @@ def gen_cases(rng, tier):
           ents[0][-1], ents[1][-1] = u1, u2
         elif ents:
           ents[0][-1] = u1
+    if i % 7 == 1:
+      # a formula that rescales one of its own parameters before using it ('rho := rho*0.529177; A*exp(-r/rho)': exprtk
+      # allows the assignment): every evaluation starts from the parameter as given in the file, whatever an earlier
+      # evaluation did to its copy
+      m["forms"] = list(m.get("forms") or []) + [
+        {"name": "selfscale", "params": ["r", "A", "rho"], "breaks": [],
+         "expr": ["assign_then", "rho", ["*", ["var", "rho"], ["num", 0.529177]], ["*", ["var", "A"], ["call", "exp", [["neg", ["/", ["var", "r"], ["var", "rho"]]]]]]]}]
+      u_ = {"k": "custom", "name": "selfscale", "args": [spec.rfloat(rng, 5.0, 500.0, 2), spec.rfloat(rng, 0.5, 1.5, 3)]}
+      for key in ("pair", "density", "embed"):
+        ents = m.get(key) or []
+        if ents:
+          ents[-1][-1] = u_
     shared = 0
     if i % 5 == 3:
       shared = spec.share_leading_range(rng, m)
     cases.append({"model": m, "styles": [rng.randrange(1 << 30) for _ in range(3)], "rseed": rng.randrange(1 << 30), "shared_leading_range": shared})
+  for k in range(4 if tier == "quick" else 24):
+    cases.append({"kind": "signed_zero", "r0": rng.choice([1.0, 2.0, 1.5, 2.5]), "a": spec.rfloat(rng, 1.0, 9.0, 2), "b": spec.rfloat(rng, 1.0, 9.0, 2)})
   return cases
 
 
@@ -192,7 +206,49 @@ def count_nodes(node):
   return 1
 
 
+def run_signed_zero(case, ctx):
+  """Hand-written formulas whose value depends on the SIGN of a zero argument (pymath.copysign, pymath.atan2): two
+  consecutive calls of one custom form whose arguments differ only in that sign are two different calls.  The expected
+  values are computed with Python floats (the 40-digit reference has no signed zero)."""
+  import math
+  ctx.cls("formula_sensitive_to_the_sign_of_zero")
+  r0, a, b = case["r0"], case["a"], case["b"]
+  text = ("[Tabulation]\ntarget : LAMMPS\nnr : 5\ncutoff : 4.0\n\n[Potential-Form]\n"
+          "sgnz(r, x) = pymath.copysign(1.0, x)\n"
+          "angz(r, x) = pymath.atan2(x, -1.0)\n"
+          "zstep(r, r0, a, b) = a*sgnz(r, r - r0) + b*sgnz(r, -1.0*(r - r0))\n"
+          "zang(r, r0, a, b) = a*angz(r, r - r0) + b*angz(r, -1.0*(r - r0))\n\n"
+          "[Pair]\nA-A : >=0 zstep %r %r %r\nA-B : >=0 zang %r %r %r\nB-B : sum(>=0 sgnz %r, >=0 sgnz %r)\n" % (r0, a, b, r0, a, b, 0.0, -0.0))
+  try:
+    tab = routes.read_config(text)
+    pots = {(p.speciesA, p.speciesB): p.potentialFunction for p in tab.potentials}
+  except Exception as e:
+    et, fn = exc_sig(e)
+    ctx.violation("exception", "well-formed model refused: %s %s" % (et, e), what="exception", exc=et, func=fn, variant="signed_zero")
+    return
+  want = {("A", "A"): lambda r: a * math.copysign(1.0, r - r0) + b * math.copysign(1.0, -1.0 * (r - r0)),
+          ("A", "B"): lambda r: a * math.atan2(r - r0, -1.0) + b * math.atan2(-1.0 * (r - r0), -1.0),
+          ("B", "B"): lambda r: 0.0 if r <= 0 else math.copysign(1.0, 0.0) + math.copysign(1.0, -0.0)}
+  pts = [r0, r0 + 0.5, r0, max(0.25, r0 - 0.5), r0, 3.0, r0]
+  for key, f in pots.items():
+    for r in pts:
+      try:
+        v = f(r)
+      except Exception as e:
+        et, fn = exc_sig(e)
+        ctx.violation("exception", "%s-%s raised at r=%r: %s %s" % (key[0], key[1], r, et, e), what="exception", exc=et, func=fn, variant="signed_zero")
+        return
+      w = want[key](r)
+      ctx.count("values_compared")
+      if not (abs(v - w) <= 1e-12 * max(1.0, abs(w))):
+        ctx.violation("meaning", "%s-%s at r=%r: potable gives %r, the formula evaluated in double arithmetic gives %r (two calls of one form whose arguments are +0.0 and -0.0)" % (key[0], key[1], r, v, w), what="meaning")
+        return
+  ctx.nontrivial(True)
+
+
 def run_case(case, ctx):
+  if case.get("kind") == "signed_zero":
+    return run_signed_zero(case, ctx)
   m = case["model"]
   rng = random.Random(case["rseed"])
   M = R.Model(m["forms"], m["tables"])
